@@ -11,6 +11,16 @@ import (
 	"github.com/taurusgroup/multi-party-sig/pkg/party"
 )
 
+// containsStr is strings.Contains written out (the engine interprets it; strings.Contains ends in an assembly routine).
+func containsStr(s, sub string) bool {
+	for i := 0; i+len(sub) <= len(s); i++ {
+		if s[i:i+len(sub)] == sub {
+			return true
+		}
+	}
+	return false
+}
+
 func deliverTo(h *MultiHandler, ms []*Message) {
 	for _, m := range ms {
 		if h.CanAccept(m) {
@@ -103,7 +113,7 @@ func H_Equivocate() {
 			_, oerr := other.Result()
 			for _, c := range perr.Culprits {
 				// a peer that aborted itself and whose abort notice we received is reported as the origin of that notice
-				relayed := oerr != nil && oerr.Error() != notFinished
+				relayed := oerr != nil && oerr.Error() != notFinished && containsStr(perr.Error(), "aborted by other party")
 				vsym.Assert(c == "c" || relayed, "an equivocation abort never names an honest party (other than as the origin of its own abort notice)")
 			}
 		}
